@@ -17,6 +17,9 @@ RULES = {
     "R11.4": "undo exactly for the failed payout: the only other increase is in `reply` on (id = RECEIVE_ID, result = Err), by "
              "the three fields of the stored REPLY_ARGS, which the receive path saved as exactly the (C, D, A) of its "
              "reduction; the receive payout is SubMsg::reply_on_error(.., RECEIVE_ID) with that same id; total_sent untouched",
+    "R11.6": "the undo id is exclusive: no payout outside ibc_packet_receive (refunds on error-ack / timeout) is dispatched with a "
+             "reply id on which `reply` performs the undo - otherwise a failing refund replays the REPLY_ARGS left by an earlier, "
+             "unrelated receive and raises the outstanding balance of a channel nothing was escrowed on",
     "R11.5": "voucher prefix: on receive the local denom is the third '/'-segment of the packet denom only on paths that decided "
              "segments == 3, segment0 == packet.src.port_id and segment1 == packet.src.channel_id",
 }
@@ -35,6 +38,7 @@ def run(ctx):
     STATE, REPLY, CHINFO = it["state"], it["reply"], it["chan_info"]
     eps = entry_points(ctx.facts, CRATE)
     n_pay = n_inc = 0
+    other_ids = []
     recv_id = None
     saved_args = []
     chan_of = {"ibc_packet_receive": ("field", ("field", ("field", ("param", "msg"), "packet"), "dest"), "channel_id"),
@@ -98,6 +102,8 @@ def run(ctx):
                             prob = "receive payout is dispatched with SubMsg::%s: a failing payout would not be undone" % pp["how"]
                         else:
                             recv_id = pp["reply_id"]
+                    if ename != "ibc_packet_receive":
+                        other_ids.append((key, pp["reply_id"], [e.site for _, e, _ in sw]))
                     ctx.ob("R11.1", key + "/payout of %s" % pp["kind"], prob is None, detail=prob, sites=[e.site for _, e, _ in sw],
                            sample={"payout": {k: (show(v)[:80] if isinstance(v, tuple) else v) for k, v in pp.items()}})
                 # ---- every state write
@@ -140,6 +146,12 @@ def run(ctx):
     ctx.floor("R11.4", "receive paths saving REPLY_ARGS", len(saved_args), 2)
     # reply id agreement
     undo_ids = ctx.cache.get("undo_ids", set())
+    for key, rid, sites in other_ids:
+        clash = rid is not None and rid[0] == "lit" and ("=", rid[1]) in undo_ids
+        ctx.ob("R11.6", key + "/refund reply id is not an undo id", not clash, sites=sites,
+               detail="the refund sub-message replies with id %s, on which reply() adds REPLY_ARGS.amount back to "
+                      "(REPLY_ARGS.channel, REPLY_ARGS.denom): a failed refund replays the stale arguments of an earlier receive"
+                      % (show(rid) if rid else None), sample={"reply_id": show(rid) if rid else None})
     ctx.ob("R11.4", "reply id of the receive payout = id undone in reply", recv_id is not None and recv_id[0] == "lit" and ("=", recv_id[1]) in undo_ids,
            detail="receive payout replies with id %s but reply() undoes on ids %s" % (show(recv_id) if recv_id else None, sorted(undo_ids)),
            sample={"id": show(recv_id) if recv_id else None})
